@@ -73,7 +73,8 @@ Ltac qconst :=
   change (/ (100 # 1)) with (1 # 100) in *;
   change (inject_Z 0) with 0 in *; change (inject_Z 1) with 1 in *;
   change (inject_Z (-1)) with (-1 # 1) in *;
-  change (inject_Z 65535) with 65535 in *; change (inject_Z 4294967295) with 4294967295 in *.
+  change (inject_Z 65535) with 65535 in *; change (inject_Z 4294967295) with 4294967295 in *;
+  change (inject_Z 360) with 360 in *; change (inject_Z 1000) with 1000 in *; change (inject_Z 100) with 100 in *.
 
 (* ---------------------------------------------------------------- floor, rounding *)
 
